@@ -44,12 +44,17 @@ func (t fasttime) reached() bool {
 
 // makeDeadline returns a time that is approximately time.Now().Add(d)
 func makeDeadline(d time.Duration) fasttime {
+	// clockEnd must be read before current: a stopped clock always has
+	// current > clockEnd, so a stale current can never take the fast path,
+	// even if another goroutine restarts the clock between the two reads.
+	clockEnd := fast.clockEnd.read()
+
 	// Increase the deadline since the clock we are reading may be
 	// just about to tick forwards.
 	end := fast.current.read() + durationToTicks(d+clockPeriod)
 
 	// Start or extend clock if necessary.
-	if end > fast.clockEnd.read() {
+	if end > clockEnd {
 		// If time.Since(last use) > timeout, there's a chance that
 		// fast.current will no longer be updated, which can lead to
 		// incorrect 'end' calculations that can trigger a false timeout
@@ -57,9 +62,11 @@ func makeDeadline(d time.Duration) fasttime {
 		if !fast.running && !fast.start.IsZero() {
 			// update fast.current
 			fast.current.write(durationToTicks(time.Since(fast.start)))
-			// recalculate our end value
-			end = fast.current.read() + durationToTicks(d+clockPeriod)
 		}
+		// recalculate our end value: the current we read above may have been
+		// stale even if the clock is running by now, because another
+		// goroutine may have restarted it after we read it
+		end = fast.current.read() + durationToTicks(d+clockPeriod)
 		fast.mu.Unlock()
 		extendClock(end)
 	}
